@@ -1,10 +1,29 @@
 (* The models instantiated with the constants REGENERATED from /repo (Gen/Repo_hash.v).
    These are the functions that are extracted, run against the compiled C, and that the
-   property theorems are about.  Definitions only. *)
+   property theorems are about.
+
+   What XXX_Final / HMAC_XXX_Final leave in the context object: the context as the computation
+   leaves it (state words, bit count, buffer after the padding), with exactly those fields zeroed
+   whose path is in the ZERO SET that the interpreter of Alg/HashWipe.v computes from the statement
+   list regenerated from the body of that C function (hash_final_fns) and the struct layouts
+   regenerated from the headers (hash_structs).  No wipe is written down in this file.
+   Definitions only. *)
+From Coq Require Import String.
 From Coq Require Import Arith NArith List.
-From LCP Require Import Base.CheckedMem Gen.Repo_hash Alg.Words Alg.MDModel Alg.Sha256Model Alg.MD32Model Alg.Sha1Model Alg.Md5Model Alg.HmacModel Alg.Pbkdf2Model.
+From LCP Require Import Base.CheckedMem Gen.Repo_hash Alg.Words Alg.MDModel Alg.Sha256Model Alg.MD32Model Alg.Sha1Model Alg.Md5Model Alg.HmacModel Alg.Pbkdf2Model Alg.HashWipe.
 Import ListNotations.
 Local Open Scope N_scope.
+
+(* ---- zero sets of the six public Final functions, from the regenerated statement lists ---- *)
+Definition final_zero_set (fname : string) : list wpath := wzero_after 8 hash_structs hash_final_fns fname.
+Definition sha256_final_zero : list wpath := final_zero_set "SHA256_Final"%string.
+Definition sha1_final_zero : list wpath := final_zero_set "SHA1_Final"%string.
+Definition md5_final_zero : list wpath := final_zero_set "MD5_Final"%string.
+Definition hmac256_final_zero : list wpath := final_zero_set "HMAC_SHA256_Final"%string.
+Definition hmacsha1_final_zero : list wpath := final_zero_set "HMAC_SHA1_Final"%string.
+Definition hmacmd5_final_zero : list wpath := final_zero_set "HMAC_MD5_Final"%string.
+Definition in_ictx : wpath := ["ictx"%string].
+Definition in_octx : wpath := ["octx"%string].
 
 (* ---- SHA-256 ---- *)
 Definition sha256_transform := c256_transform sha256_Krnd.
@@ -13,7 +32,8 @@ Definition sha256_update := c256_update sha256_Krnd sha256_blk sha256_cshift sha
 Definition sha256_final_internal :=
   c256_final_internal sha256_Krnd sha256_PAD sha256_padlim sha256_blk sha256_cshift sha256_rmask.
 Definition sha256_final :=
-  c256_final sha256_Krnd sha256_PAD sha256_padlim sha256_blk sha256_cshift sha256_rmask.
+  c256_final sha256_Krnd sha256_PAD sha256_padlim sha256_blk sha256_cshift sha256_rmask
+             (mask256 sha256_final_zero []).
 Definition sha256_buf :=
   c256_buf_oneshot sha256_Krnd sha256_initial_state sha256_PAD sha256_padlim sha256_blk
                    sha256_cshift sha256_rmask.
@@ -25,9 +45,12 @@ Definition sha1_lo1 : bool := sha1_lo_word =? 1.
 Definition sha1_init : ctx32 := c32_init sha1_iv sha1_lo1.
 Definition sha1_update :=
   c32_update sha1_transform sha1_lo1 sha1_cshift sha1_hishift sha1_rmask sha1_blk.
-Definition sha1_final :=
-  c32_final sha1_transform be32enc_vect sha1_iv sha1_PAD sha1_lo1 sha1_padlim sha1_padlim2
-            sha1_cshift sha1_hishift sha1_rmask sha1_blk.
+Definition sha1_final_with (wipe : ctx32 -> ctx32) :=
+  c32_final sha1_transform be32enc_vect sha1_PAD sha1_lo1 sha1_padlim sha1_padlim2
+            sha1_cshift sha1_hishift sha1_rmask sha1_blk wipe.
+Definition sha1_final := sha1_final_with (mask32 sha1_final_zero []).
+(* the computation alone: digest and the context as SHA1_Pad leaves it *)
+Definition sha1_final_nowipe := sha1_final_with (fun c => c).
 Definition sha1_buf :=
   c32_buf_oneshot sha1_transform be32enc_vect sha1_iv sha1_PAD sha1_lo1 sha1_padlim sha1_padlim2
                   sha1_cshift sha1_hishift sha1_rmask sha1_blk.
@@ -38,14 +61,21 @@ Definition md5_lo1 : bool := md5_lo_word =? 1.
 Definition md5_init : ctx32 := c32_init md5_iv md5_lo1.
 Definition md5_update :=
   c32_update md5_transform md5_lo1 md5_cshift md5_hishift md5_rmask md5_blk.
-Definition md5_final :=
-  c32_final md5_transform le32enc_vect md5_iv md5_PAD md5_lo1 md5_padlim md5_padlim2
-            md5_cshift md5_hishift md5_rmask md5_blk.
+Definition md5_final_with (wipe : ctx32 -> ctx32) :=
+  c32_final md5_transform le32enc_vect md5_PAD md5_lo1 md5_padlim md5_padlim2
+            md5_cshift md5_hishift md5_rmask md5_blk wipe.
+Definition md5_final := md5_final_with (mask32 md5_final_zero []).
+Definition md5_final_nowipe := md5_final_with (fun c => c).
 Definition md5_buf :=
   c32_buf_oneshot md5_transform le32enc_vect md5_iv md5_PAD md5_lo1 md5_padlim md5_padlim2
                   md5_cshift md5_hishift md5_rmask md5_blk.
 
-(* ---- HMAC-SHA256 (inner Final = SHA256_Final_internal, whole context wiped by HMAC_SHA256_Final) ---- *)
+(* ---- HMAC: the two inner Final computations leave ictx / octx as after their padding; which of
+   their fields are zero when HMAC_XXX_Final returns is the zero set of HMAC_XXX_Final, which the
+   interpreter derives from its statement list - through the explicit insecure_memzero of the whole
+   object (sha256.c) or through the zero sets of the inner XXX_Final calls on &ctx->ictx and
+   &ctx->octx (sha1.c, md5.c), as the C happens to be written. ---- *)
+(* ---- HMAC-SHA256 ---- *)
 Definition hctx256 : Type := hmac_ctx ctx256.
 Definition hmac256_init : list N -> hctx256 :=
   hmac_init ctx256 sha256_init sha256_update sha256_final_internal
@@ -54,31 +84,34 @@ Definition hmac256_update : hctx256 -> list N -> hctx256 := hmac_update ctx256 s
 Definition hmac256_final_internal : hctx256 -> list N * hctx256 :=
   hmac_final_internal ctx256 sha256_update sha256_final_internal hmac_sha256_ihash_len.
 Definition hmac256_final : hctx256 -> list N * hctx256 :=
-  hmac_final ctx256 sha256_update sha256_final_internal (fun _ => c256_zero) hmac_sha256_ihash_len.
+  hmac_final ctx256 sha256_update sha256_final_internal
+             (mask256 hmac256_final_zero in_ictx) (mask256 hmac256_final_zero in_octx) hmac_sha256_ihash_len.
 Definition hmac256_buf : list N -> list N -> list N :=
   hmac_buf ctx256 sha256_init sha256_update sha256_final_internal
            hmac_sha256_blk hmac_sha256_klen hmac_sha256_ipad hmac_sha256_opad hmac_sha256_ihash_len.
 
-(* ---- HMAC-SHA1 / HMAC-MD5 (inner Final = XXX_Final, which wipes each half) ---- *)
+(* ---- HMAC-SHA1 / HMAC-MD5 ---- *)
 Definition hctx32 : Type := hmac_ctx ctx32.
 Definition hmacsha1_init : list N -> hctx32 :=
-  hmac_init ctx32 sha1_init sha1_update sha1_final
+  hmac_init ctx32 sha1_init sha1_update sha1_final_nowipe
             hmac_sha1_blk hmac_sha1_klen hmac_sha1_ipad hmac_sha1_opad.
 Definition hmacsha1_update : hctx32 -> list N -> hctx32 := hmac_update ctx32 sha1_update.
 Definition hmacsha1_final : hctx32 -> list N * hctx32 :=
-  hmac_final ctx32 sha1_update sha1_final (fun c => c) hmac_sha1_ihash_len.
+  hmac_final ctx32 sha1_update sha1_final_nowipe
+             (mask32 hmacsha1_final_zero in_ictx) (mask32 hmacsha1_final_zero in_octx) hmac_sha1_ihash_len.
 Definition hmacsha1_buf : list N -> list N -> list N :=
-  hmac_buf ctx32 sha1_init sha1_update sha1_final
+  hmac_buf ctx32 sha1_init sha1_update sha1_final_nowipe
            hmac_sha1_blk hmac_sha1_klen hmac_sha1_ipad hmac_sha1_opad hmac_sha1_ihash_len.
 
 Definition hmacmd5_init : list N -> hctx32 :=
-  hmac_init ctx32 md5_init md5_update md5_final
+  hmac_init ctx32 md5_init md5_update md5_final_nowipe
             hmac_md5_blk hmac_md5_klen hmac_md5_ipad hmac_md5_opad.
 Definition hmacmd5_update : hctx32 -> list N -> hctx32 := hmac_update ctx32 md5_update.
 Definition hmacmd5_final : hctx32 -> list N * hctx32 :=
-  hmac_final ctx32 md5_update md5_final (fun c => c) hmac_md5_ihash_len.
+  hmac_final ctx32 md5_update md5_final_nowipe
+             (mask32 hmacmd5_final_zero in_ictx) (mask32 hmacmd5_final_zero in_octx) hmac_md5_ihash_len.
 Definition hmacmd5_buf : list N -> list N -> list N :=
-  hmac_buf ctx32 md5_init md5_update md5_final
+  hmac_buf ctx32 md5_init md5_update md5_final_nowipe
            hmac_md5_blk hmac_md5_klen hmac_md5_ipad hmac_md5_opad hmac_md5_ihash_len.
 
 (* ---- PBKDF2-HMAC-SHA256 ---- *)
